@@ -38,18 +38,20 @@ type C12Job struct {
 }
 
 type C12Result struct {
-	ID       int            `json:"id"`
-	Received int            `json:"received"`
-	Total    int            `json:"total"`
-	Calls    int            `json:"calls"`
-	Left     int            `json:"left"`
-	Kinds    map[string]int `json:"kinds,omitempty"`
-	CpuMs    int            `json:"cpu_ms"`
-	Switched bool           `json:"switched"`
-	NW       int            `json:"nw"`
-	Outcome  string         `json:"outcome"`
-	WaitedMs int            `json:"waited_ms"`
-	Panics   int            `json:"panics,omitempty"`
+	ID        int            `json:"id"`
+	Received  int            `json:"received"`
+	Total     int            `json:"total"`
+	Calls     int            `json:"calls"`
+	Left      int            `json:"left"`
+	Kinds     map[string]int `json:"kinds,omitempty"`
+	CpuMs     int            `json:"cpu_ms"`
+	Switched  bool           `json:"switched"`
+	NW        int            `json:"nw"`
+	Outcome   string         `json:"outcome"`
+	WaitedMs  int            `json:"waited_ms"`
+	Panics    int            `json:"panics,omitempty"`
+	RunMs     int            `json:"run_ms"`
+	ProcCpuMs int            `json:"proc_cpu_ms,omitempty"`
 }
 
 // c12Goroutines counts the goroutines (other than the caller) whose stack has a frame of parser2 or iterator
@@ -159,6 +161,26 @@ func c12Host() *value.FunctionGenerator {
 		}
 		return st.Get(0), nil
 	}, Args: 2, IsPure: false})
+	// hpanic(x,k) panics with an error value for x>=k, hnil(x,k) with a runtime error (write to a nil map)
+	fg.AddStaticFunction("hpanic", funcGen.Function[value.Value]{Func: func(st funcGen.Stack[value.Value], cs []value.Value) (value.Value, error) {
+		c12Gids.Store(curGid(), true)
+		if i, ok := st.Get(0).(value.Int); ok {
+			if k, ok := st.Get(1).(value.Int); ok && i >= k {
+				panic(errors.New("host function panics"))
+			}
+		}
+		return st.Get(0), nil
+	}, Args: 2, IsPure: false})
+	fg.AddStaticFunction("hnil", funcGen.Function[value.Value]{Func: func(st funcGen.Stack[value.Value], cs []value.Value) (value.Value, error) {
+		c12Gids.Store(curGid(), true)
+		var m map[string]int
+		if i, ok := st.Get(0).(value.Int); ok {
+			if k, ok := st.Get(1).(value.Int); ok && i >= k {
+				m["a"] = 1
+			}
+		}
+		return st.Get(0), nil
+	}, Args: 2, IsPure: false})
 	return fg
 }
 
@@ -209,6 +231,7 @@ func c12RunPipe(job *C12Job) C12Result {
 	}
 	c12Gids = sync.Map{}
 	base, baseKinds := c12Goroutines()
+	tRun := time.Now()
 	for i := 0; i < job.Calls; i++ {
 		func() {
 			defer func() {
@@ -225,6 +248,7 @@ func c12RunPipe(job *C12Job) C12Result {
 			}
 		}()
 	}
+	res.RunMs = int(time.Since(tRun).Milliseconds())
 	if len(res.Outcome) > 120 {
 		res.Outcome = res.Outcome[:120]
 	}
@@ -239,6 +263,11 @@ func c12RunPipe(job *C12Job) C12Result {
 		c0 := c12Cpu()
 		time.Sleep(300 * time.Millisecond)
 		res.CpuMs = int((c12Cpu() - c0).Milliseconds())
+		if res.Left == 0 {
+			// no goroutine with a frame of the library exists any more: whatever the process consumed in the window
+			// (sweeping, other jobs' timers) is not background work of this evaluation
+			res.ProcCpuMs, res.CpuMs = res.CpuMs, 0
+		}
 	}
 	return res
 }
